@@ -70,7 +70,8 @@ def table(fl: Flow, keep: Optional[Callable[[str, str], bool]] = None):
     effs = []
     merged = _merge_exclusive_stores(fl)
     for e, expr, cond in merged:
-        expr = _propagate_equalities(expr, cond)
+        if not getattr(expr, "_merged_arms", False):
+            expr = _propagate_equalities(expr, cond)
         if cond:
             # later conjuncts of a path condition are evaluated under the earlier ones
             if any(isinstance(n, ast.IfExp) for t, _p in cond for n in ast.walk(t)):
@@ -106,13 +107,63 @@ def _propagate_equalities(expr: ast.AST, cond) -> ast.AST:
     linear simplification does the rest."""
     import copy
     subs = []
+    def terms(x: ast.AST, sign: int, out: list) -> None:
+        if isinstance(x, ast.BinOp) and isinstance(x.op, ast.Add):
+            terms(x.left, sign, out)
+            terms(x.right, sign, out)
+        elif isinstance(x, ast.BinOp) and isinstance(x.op, ast.Sub):
+            terms(x.left, sign, out)
+            terms(x.right, -sign, out)
+        elif isinstance(x, ast.UnaryOp) and isinstance(x.op, ast.USub):
+            terms(x.operand, -sign, out)
+        else:
+            out.append((sign, x))
+
+    flat: list = []
+
+    def flatten(t: ast.AST, pol: bool) -> None:
+        while isinstance(t, ast.UnaryOp) and isinstance(t.op, ast.Not):
+            t, pol = t.operand, not pol
+        if isinstance(t, ast.BoolOp) and isinstance(t.op, ast.And) and pol:
+            for v in t.values:
+                flatten(v, True)
+        elif isinstance(t, ast.BoolOp) and isinstance(t.op, ast.Or) and not pol:
+            for v in t.values:
+                flatten(v, False)
+        elif isinstance(t, ast.Compare) and len(t.ops) == 1 and isinstance(t.ops[0], ast.NotEq) and not pol:
+            flat.append((ast.Compare(left=t.left, ops=[ast.Eq()], comparators=t.comparators), True))
+        else:
+            flat.append((t, pol))
+
     for test, pol in cond:
+        flatten(test, pol)
+    for test, pol in flat:
         if pol and isinstance(test, ast.Compare) and len(test.ops) == 1 and isinstance(test.ops[0], ast.Eq):
             l, r = test.left, test.comparators[0]
             if _is_elem(l) and not any(_is_elem(x) and ast.dump(x) == ast.dump(l) for x in ast.walk(r)):
                 subs.append((ast.dump(l), r))
             elif _is_elem(r) and not any(_is_elem(x) and ast.dump(x) == ast.dump(r) for x in ast.walk(l)):
                 subs.append((ast.dump(r), l))
+            else:
+                # a linear equation with the element as one additive term:  elem - 1 == X   ->   elem = X + 1
+                ts: list = []
+                terms(l, 1, ts)
+                terms(r, -1, ts)
+                el = [(sg, x) for sg, x in ts if _is_elem(x)]
+                if len(el) == 1 and len(ts) > 1:
+                    sg0, e0 = el[0]
+                    rest = [(sg, x) for sg, x in ts if x is not e0]
+                    if not any(_is_elem(y) and ast.dump(y) == ast.dump(e0) for _sg, x in rest for y in ast.walk(x)):
+                        # sg0*e0 + sum(rest) = 0   ->   e0 = -sg0 * sum(rest)
+                        val: Optional[ast.AST] = None
+                        for sg, x in sorted(rest, key=lambda t: -t[0] * -sg0):
+                            eff = -sg0 * sg
+                            if val is None:
+                                val = x if eff > 0 else ast.UnaryOp(op=ast.USub(), operand=x)
+                            else:
+                                val = ast.BinOp(left=val, op=ast.Add() if eff > 0 else ast.Sub(), right=x)
+                        if val is not None:
+                            subs.append((ast.dump(e0), val))
     if not subs:
         return expr
 
@@ -132,31 +183,7 @@ def resolve_under(fl: Flow, expr: ast.AST, cond_ast: Optional[ast.AST]) -> ast.A
     `write(b if miss else c)` under `miss` is `write(b)`.  (Decided on truth tables, so the test may be spelled differently.)"""
     if cond_ast is None or not any(isinstance(n, ast.IfExp) for n in ast.walk(expr)):
         return expr
-    import copy
-    pr = fl.cprinter
-    cb = pr._bool(cond_ast)
-
-    def decided(test: ast.AST):
-        tb = pr._bool(test)
-        t = pr._tables([pr._mk("and", [cb, tb]), pr._mk("and", [cb, pr._bool(test, False)])])
-        if t is None:
-            return None
-        if t[1][1] == 0 and t[1][0] != 0:
-            return True   # cond and not test is impossible
-        if t[1][0] == 0 and t[1][1] != 0:
-            return False
-        return None
-
-    class T(ast.NodeTransformer):
-        def visit_IfExp(self, n: ast.IfExp):
-            d = decided(n.test)
-            if d is True:
-                return self.visit(n.body)
-            if d is False:
-                return self.visit(n.orelse)
-            return self.generic_visit(n)
-
-    return T().visit(copy.deepcopy(expr))
+    return fl.cprinter.resolve_under(expr, fl.cprinter._bool(cond_ast))
 
 
 def _merge_exclusive_stores(fl: Flow):
@@ -186,25 +213,39 @@ def _merge_exclusive_stores(fl: Flow):
                     if t is None or t[1][0] != 0:
                         excl = False
             if excl:
-                # the common prefix of the conditions stays the condition; the rest moves into the value
+                # one store of a conditional value under the disjunction of the conditions.  Every arm is selected by its *full*
+                # path condition (so the print does not depend on how the tests were nested), equalities of a path are
+                # propagated into its own arm, and the default arm is chosen by the print of its value, not by position.
                 common = []
                 for parts in zip(*[x.cond for x in group]):
                     if all(ast.dump(p[0]) == ast.dump(parts[0][0]) and p[1] == parts[0][1] for p in parts):
                         common.append(parts[0])
                     else:
                         break
-                val: ast.AST = group[-1].expr.value
-                for x in reversed(group[:-1]):
-                    val = ast.IfExp(test=_cond_ast(x.cond[len(common):]), body=x.expr.value, orelse=val)
-                # the merged store happens whenever any part happens; when the parts cover the common condition this is `common`
+                arms = []
+                for x in group:
+                    v = _propagate_equalities(x.expr.value, x.cond)
+                    if x.cond:
+                        v = resolve_under(fl, v, _cond_ast(x.cond))
+                    arms.append((pr.show(v), v, x))
+                arms.sort(key=lambda t: t[0])
+                val: ast.AST = arms[-1][1]
+                for _txt, v, x in reversed(arms[:-1]):
+                    val = ast.IfExp(test=_cond_ast(x.cond), body=v, orelse=val)
                 disj_all = pr._mk("or", bs)
                 cm = pr._mk("and", [pr._bool(t, pol) for t, pol in common]) if common else ("const", True)
                 t = pr._tables([disj_all, cm])
                 if t is not None and t[1][0] == t[1][1]:
-                    out.append((e, ast.Assign(targets=e.expr.targets, value=val), tuple(common)))
-                    for x in group:
-                        done.add(id(x))
-                    continue
+                    cond_m = tuple(common)
+                else:
+                    rest = [_cond_ast(x.cond[len(common):]) for x in group]
+                    cond_m = tuple(common) + ((ast.BoolOp(op=ast.Or(), values=rest), True),)
+                new_e = ast.Assign(targets=e.expr.targets, value=val)
+                new_e._merged_arms = True  # type: ignore[attr-defined]
+                out.append((e, new_e, cond_m))
+                for x in group:
+                    done.add(id(x))
+                continue
         out.append((e, e.expr, e.cond))
         done.add(id(e))
     return out
